@@ -335,17 +335,39 @@ def r4(ctx):
     ctx.fn(b)
     P = b.path
     im = b.calls(r'^indexmap::IndexMap')
-    hm = b.calls(r'HashMap|BTreeMap|DashMap')
+    # a hash map may serve as a look-up table (filled and queried by key); nothing may be produced by iterating over one
+    hm = [c for c in b.calls(r'HashMap|BTreeMap|DashMap') if not c.matches(r'HashMap::<.*>::(new|with_capacity|insert|get|is_empty|len|contains_key)$')]
     ctx.check(bool(im) and not hm, rule, P + '|ordered-map', b.where(), 'id groups are kept in an IndexMap (insertion order)', 'id groups are kept in %s: sub-group order becomes hash-dependent' % (sorted({c.path.split('::')[2] for c in hm}) if hm else 'no IndexMap'))
     pos = b.calls(r'Iterator::position$|::position$|Iterator::max_by_key$|Iterator::min_by_key$|Iterator::max_by$|Iterator::min_by$')
     pref = any(lib.body(cp).calls(r'path::Path::is_prefix_of$') for cp in lib.closures_of(b.path))
-    ctx.check(bool(pos) and pref, rule, P + '|root-prefix', b.where(), 'root = a root that is a prefix of the path', 'the root of a file is not found by Path::is_prefix_of')
+    # the other form: the roots are the keys of a table (root -> index) and the root of a file is the first of the path and its
+    # ancestors (Path::parent, in a loop) that is a key
+    lookup = False
+    gets, parents, inserts = b.calls(r'HashMap::<.*>::get$'), b.calls(r'path::Path::parent$'), b.calls(r'HashMap::<.*>::insert$')
+    roots_param = [i for i in range(1, b.argc + 1) if b.local_name(i) == 'roots']
+    if gets and parents and inserts and roots_param:
+        g, pa, ins = gets[0], parents[0], inserts[0]
+        in_cycle = pa.bb in b.reachable(g.bb) and g.bb in b.reachable(pa.bb)
+        key = backslice(b, [g.args[1]])
+        key_ok = key.has_call(r'AsRef::as_ref$') and key.has_call(r'path::Path::parent$')
+        filled = backslice(b, ins.args[1:])
+        filled_ok = roots_param[0] in filled.locals and filled.has_call(r'Iterator::enumerate$')
+        same_map = bool(set(backslice(b, [g.args[0]]).locals) & set(backslice(b, [ins.args[0]]).locals) - set(range(1, b.argc + 1)))
+        lookup = in_cycle and key_ok and filled_ok and same_map
+    ctx.check((bool(pos) and pref) or lookup, rule, P + '|root-prefix', b.where(), 'root = a root that is a prefix of the path (%s)' % ('the first of the path and its ancestors that is in the table of the roots' if lookup else 'is_prefix_of'),
+              'the root of a file is found neither by Path::is_prefix_of nor by looking up the path and its ancestors in a table of the roots')
     # the choice among several matching (nested) roots does not depend on their order: the most specific one, not the first one
     sel = b.calls(r'Iterator::max_by_key$|Iterator::min_by_key$|Iterator::max_by$|Iterator::min_by$')
     by_depth = any(lib.body(cp).calls(r'path::Path::component_count$|::len$') for cp in lib.closures_of(b.path))
-    ctx.check(bool(sel) and by_depth, rule, P + '|root-order-independent', (sel[0].where() if sel else (pos[0].where() if pos else b.where())), 'among nested roots the innermost one (most components) is chosen',
+    ctx.check((bool(sel) and by_depth) or lookup, rule, P + '|root-order-independent', (sel[0].where() if sel else (pos[0].where() if pos else b.where())),
+              'among nested roots the innermost one is chosen (%s)' % ('the walk up the ancestors starts at the path; the table is keyed by the root, not by its position' if lookup else 'most components'),
               'a file below several of the roots is assigned to the first of them on the command line: `--isolate d d/sub` puts d/sub/b into root d (nothing reported) while `--isolate d/sub d` '
               'reports {d/sub/b, d/a} and `remove` deletes d/a - the set of duplicates depends on the order of the roots')
+    # the cost of a file does not grow with the number of roots: no scan over the roots inside the loop over the files
+    ctx.advise(lookup, rule, P + '|root-looked-up', b.where(), 'the root of a file is looked up in a table built once per call; no scan over the roots per file',
+              'every file is compared with every root (is_prefix_of builds two component vectors per pair), in each of the about twelve passes over the groups (two filters and the statistics of five stages, sorting, the report): '
+              '`group --isolate */` over 1000 top-level directories with 20 files each spends 38 s there against 0.7 s without --isolate, before the first byte is hashed')
+    pos = pos or (gets if lookup else [])
     # decision structure: Some(idx) -> push into prefix group; None && group_by_id -> id group; None -> singleton
     entry = b.calls(r'IndexMap.*::entry$')
     single = b.calls(r'FileSubGroup.*::single$')
